@@ -477,7 +477,9 @@ PROPS = {
                 "pending / cancelled / ignored rows, balances consistent from a zero opening balance, free text from plain / Latin-1 / Unicode / quotes / separators / newlines / control characters, "
                 "CSV written quoted-all or minimally, bare quotes for LazyQuotes readers, blanks after separators, CRLF, BOM), malformed (a well-formed statement with one mutation: empty, truncated, "
                 "line removed / doubled / blanked / swapped, field added / dropped, stray quote, damaged number / date / currency, invalid account flag, random byte), golden (the repository's example "
-                "inputs), lib-dec, lib-date, lib-str. class = (stream, importer, outcome, row bucket, free-text features, amount / row-kind features).",
+                "inputs), flags (the importers with several account flags under every set partition of {Expenses:TBD, flag accounts}: two, three or all flags naming one account, flags naming Expenses:TBD, "
+                "never the import account; half of the stmt / malformed statements of these importers also draw such a collision), lib-dec, lib-date, lib-str. "
+                "class = (stream, importer, outcome, row bucket, free-text features, amount / row-kind features, flag collisions).",
         "assumptions": ["statements are valid text in their encoding (UTF-8, resp. ISO 8859-1 for ch.supercard)",
                         "the accounts given by flags differ from the import account (otherwise a posting pair cancels itself)",
                         "the print-then-parse round trip of journal.Print is not mechanised; it is monitored on the real output of every case"],
